@@ -22,7 +22,7 @@ RULE = (
 )
 ASSUMPTIONS = ["'bit-identical' is relaxed to relative 1e-12 for bootstrap float cells only (BLAS summation order depends on matrix shape); vote counts are compared exactly", "attribution of the extra unit as in C01 (state from the feed, county/district from its id)", "bootstrap draws are read from the documented model state errors_B_1..4"]
 SELFCHECK_INDEX = 13
-VOTES = {"zero": (0, 0, 0), "small": (3, 2, 6), "large": (3000, 1000, 4100)}
+VOTES = {"zero": (0, 0, 0), "small": (3, 2, 6), "large": (3000, 1000, 4100), "large_rhs": (1000, 3000, 4100)}
 LOCS = {"known": ("AA", "AAc0"), "newcounty": ("AA", "AAcN"), "emptystate": ("BB", "BBc0"), "alien": ("ZZ", "ZZc0")}
 
 
@@ -32,7 +32,7 @@ def bounds(tier):
 
 def cases(tier, seed):
     out = []
-    pv = [(0, "zero"), (50, "small"), (100, "large"), (100, "zero"), (50, "large")]
+    pv = [(0, "zero"), (50, "small"), (100, "large"), (100, "zero"), (50, "large"), (100, "large_rhs")]
     if tier == "thorough":
         pv = [(p, v) for p in (0, 50, 100) for v in VOTES]
     for setup in ("np2", "ga1", "bs1"):
